@@ -1,4 +1,52 @@
-(* placeholder, replaced when the proofs for C18 are merged *)
-From Demes Require Import Base.Num.
-Theorem C18_placeholder : True.
-Proof. exact I. Qed.
+(* C18 — resolution is a pure function of its input.
+   Theorems only; proofs in Model/Heap.v, a store-with-references model (addresses, dict and
+   list nodes, atoms) in which sharing and mutation are expressible — in the value-level model
+   Model/Resolve.v purity and determinism hold by construction (fromdict is a Coq function).
+   copy_unshared is the model of demes.demes._copy_unshared (fix b63aa29).  For every store,
+   root and fuel:
+   - C18_copy_fresh: the copy only appends nodes and everything reachable from the copy is fresh;
+   - C18_copy_value: the copy denotes the same tree as the original;
+   - C18_frame: NO sequence of mutations by a consumer that starts from the copy (it may write any
+     node it can reach or has allocated, storing only references it holds — popping keys,
+     inserting defaults, appending, sorting are all of this form) changes any node of the
+     caller's store — on success and on every failure path alike, since the statement is about
+     every prefix of every mutation sequence;
+   - C18_copy_is_a_tree: no fresh node is referenced twice, so consuming one position cannot
+     affect another (the defect F4 fixed by b63aa29; Model/Heap.v also contains the computed
+     example in which a sharing-preserving copy empties the second user of a shared list).
+   That Builder.resolve / Graph.fromdict behave so on CPython objects is checked on the
+   implementation with mutation-logging containers. *)
+From Coq Require Import List Arith.
+From Demes Require Import Model.Heap.
+Import ListNotations.
+
+Theorem C18_copy_fresh fuel st v st' v' :
+  copy_unshared fuel st v = Some (st', v') ->
+  (exists ext, st' = st ++ ext) /\
+  firstn (length st) st' = st /\
+  (forall a, Reach st' v' a -> length st <= a).
+Proof. exact (copy_fresh fuel st v st' v'). Qed.
+
+Theorem C18_copy_value fuel st v st' v' :
+  copy_unshared fuel st v = Some (st', v') ->
+  forall fuel2 t, unfold fuel2 st v = Some t -> unfold fuel2 st' v' = Some t.
+Proof. exact (copy_value fuel st v st' v'). Qed.
+
+Theorem C18_frame fuel st v st' v' ms :
+  copy_unshared fuel st v = Some (st', v') ->
+  Confined v' st' ms ->
+  forall a, a < length st -> nth_error (exec st' ms) a = nth_error st a.
+Proof. exact (frame fuel st v st' v' ms). Qed.
+
+Theorem C18_copy_is_a_tree fuel st v st' v' :
+  copy_unshared fuel st v = Some (st', v') ->
+  exists ext, st' = st ++ ext /\
+    NoDup (val_refs v' ++ flat_map node_refs ext) /\
+    (forall a n b, length st <= a -> lookup st' a = Some n -> In b (node_refs n) ->
+                   length st <= b < a).
+Proof. exact (copy_unshared_tree fuel st v st' v'). Qed.
+
+Print Assumptions C18_copy_fresh.
+Print Assumptions C18_copy_value.
+Print Assumptions C18_frame.
+Print Assumptions C18_copy_is_a_tree.
